@@ -258,12 +258,18 @@ fn emit_tie(cases: &[TieCase], singles: &[(String, Kind, Call)]) -> String {
             let n_p: usize = it.next().unwrap().parse().unwrap();
             let (a, b) = c.calls.split_at(n_t);
             let lp = format!("Tie.loop {} {} false {}", c.kind.coq(), coq_table(a), a.len());
-            let ps = format!("Tie.pstage {} {}", coq_table(b), n_p);
+            // phase_envelope.rs:100-103: the pressure stage only runs when the last temperature point converged
+            let ps = format!(
+                "(if existsb (fun i => Nat.eqb i {}) (snd ({lp})) then Tie.pstage {} {} else ([], []))",
+                n_t.wrapping_sub(1),
+                coq_table(b),
+                n_p
+            );
             s += &format!("Eval vm_compute in (\"LOOP\", \"{}#T\", {}).\n", c.name, lp);
             s += &format!("Eval vm_compute in (\"PSTAGE\", \"{}#P\", {}).\n", c.name, ps);
             // phase_envelope.rs:100-103: without a last temperature-stage state the diagram ends there (no critical point)
             s += &format!(
-                "Eval vm_compute in (\"ASM\", \"{}\", if existsb (fun i => Nat.eqb i {}) (snd ({lp})) then snd ({lp}) ++ map (fun i => 1000 + i) (snd ({ps})) ++ [3000] else snd ({lp})).\n",
+                "Eval vm_compute in (\"ASM\", \"{}\", if existsb (fun i => Nat.eqb i {}) (snd ({lp})) then (snd ({lp}) ++ map (fun i => 1000 + i) (snd ({ps})) ++ [3000])%list else snd ({lp})).\n",
                 c.name,
                 n_t.wrapping_sub(1)
             );
@@ -308,7 +314,7 @@ fn emit_tie(cases: &[TieCase], singles: &[(String, Kind, Call)]) -> String {
             let lp = format!("Tie.loop {} {} {} {}", c.kind.coq(), coq_table(&c.calls), reset, c.calls.len());
             s += &format!("Eval vm_compute in (\"LOOP\", \"{}\", {}).\n", c.name, lp);
             let asm = match c.assembly.as_str() {
-                "crit" => format!("snd ({lp}) ++ [3000]"),
+                "crit" => format!("(snd ({lp}) ++ [3000])%list"),
                 "binary_bubble" => format!("Tie.binary true (snd ({lp}))"),
                 "binary_dew" => format!("Tie.binary false (snd ({lp}))"),
                 _ => format!("snd ({lp})"),
@@ -474,6 +480,7 @@ struct Stats {
     none_only_ok: usize,
     both_fail: usize,
     worst: f64,
+    by_kind: std::collections::BTreeMap<String, (usize, usize, f64)>,
     failures: Vec<Value>,
     notes: Vec<Value>,
     samples: Vec<Value>,
@@ -481,15 +488,21 @@ struct Stats {
 
 impl Stats {
     fn new() -> Self {
-        Stats { comparisons: 0, both_ok: 0, guess_only_ok: 0, none_only_ok: 0, both_fail: 0, worst: 0.0, failures: vec![], notes: vec![], samples: vec![] }
+        Stats { comparisons: 0, both_ok: 0, guess_only_ok: 0, none_only_ok: 0, both_fail: 0, worst: 0.0, by_kind: Default::default(), failures: vec![], notes: vec![], samples: vec![] }
     }
     /// compare a result obtained with a guess with the stand-alone one
     fn cmp(&mut self, what: &str, key: Value, with: &Result<Vec<f64>, String>, without: &Result<Vec<f64>, String>, tol: f64) {
         self.comparisons += 1;
+        let ent = self.by_kind.entry(what.to_string()).or_insert((0, 0, 0.0));
+        ent.0 += 1;
         match (with, without) {
             (Ok(a), Ok(b)) => {
                 self.both_ok += 1;
                 let d = max_rel(a, b);
+                ent.1 += 1;
+                if d > ent.2 {
+                    ent.2 = d;
+                }
                 if d.is_nan() || d > tol {
                     self.failures.push(json!({"what": what, "key": key, "with_guess": a, "without_guess": b, "max_rel_diff": d, "tol": tol,
                         "broken": "H_unique: the result accepted with the guess differs from the stand-alone result"}));
@@ -632,7 +645,8 @@ fn record_binary(sys: &Sys, t_frac: f64, npoints: usize, x_lle: Option<(f64, f64
         .states
         .iter()
         .map(|s| {
-            end_id(s).unwrap_or_else(|| {
+            // the second end point is the binary critical point when the lighter component is supercritical
+            end_id(s).or(if is_crit(s) { Some(2001) } else { None }).unwrap_or_else(|| {
                 let j = match_state(Kind::Bd, &calls, s);
                 if j != UNKNOWN && j >= n1 {
                     1000 + (j - n1)
@@ -840,7 +854,7 @@ fn main() {
     let mut grid_cmp = 0usize;
 
     // ---------------------------------------------------------------- A. pure diagrams
-    let n_pure_dia = if full { pures.len() } else { 3.min(pures.len()) };
+    let n_pure_dia = pures.len();
     for (i, sys) in pures.iter().enumerate() {
         if let Some(o) = &only {
             if !sys.name.contains(o.as_str()) {
@@ -897,7 +911,7 @@ fn main() {
     }
 
     // ---------------------------------------------------------------- B. pure: guesses from other temperatures / pressures, bad guesses
-    let n_guess = if full { 40 } else { 8 };
+    let n_guess = if full { 400 } else { 60 };
     for sys in &pures {
         if let Some(o) = &only {
             if !sys.name.contains(o.as_str()) {
@@ -972,7 +986,7 @@ fn main() {
     }
 
     // ---------------------------------------------------------------- C. binary diagrams
-    let n_bin_dia = if full { bins.len() } else { 2.min(bins.len()) };
+    let n_bin_dia = bins.len();
     for (i, sys) in bins.iter().enumerate() {
         if let Some(o) = &only {
             if !sys.name.contains(o.as_str()) {
@@ -1056,6 +1070,24 @@ fn main() {
             }
             ties.push(case);
         }
+        // above the critical temperature of the lighter component: the line ends at the binary critical point and
+        // the points next to it may fail (continuation variables are then reset to the initial pressure)
+        {
+            let tl = sys.tc[0].min(sys.tc[1]);
+            let th = sys.tc[0].max(sys.tc[1]);
+            let tsc = (tl + rng.range(0.1, 0.6) * (th - tl)) / tl;
+            if let Some((case, dia)) = record_binary(sys, tsc, 8 + rng.below(8), None) {
+                for s in &dia.states {
+                    if end_id(s).is_none() && !is_crit(s) {
+                        let x1 = s.liquid().molefracs[0];
+                        let t = s.vapor().temperature.to_reduced();
+                        let alone = bubble_at(&sys.eos, t, x1, None, None);
+                        st.cmp("binary_vle (supercritical light component) state vs stand-alone bubble_point", json!({"system": sys.name, "T": t, "x1": x1, "npoints": case.info["npoints"]}), &Ok(vle_vec(s)), &vv(&alone), TOL_BD);
+                    }
+                }
+                ties.push(case);
+            }
+        }
         // bubble point line (continuation in temperature at fixed composition)
         let x1 = rng.range(0.2, 0.8);
         if let Some((case, dia)) = record_bubble_line(sys, x1, rng.range(0.6, 0.7), 6 + rng.below(4)) {
@@ -1111,7 +1143,7 @@ fn main() {
     }
 
     // ---------------------------------------------------------------- D. bubble / dew / flash with guesses within a factor 3
-    let n_bd = if full { 30 } else { 6 };
+    let n_bd = if full { 300 } else { 40 };
     for sys in &bins {
         if let Some(o) = &only {
             if !sys.name.contains(o.as_str()) {
@@ -1197,7 +1229,7 @@ fn main() {
     }
 
     // ---------------------------------------------------------------- E. state constructors with initial density / temperature
-    let n_state = if full { 40 } else { 8 };
+    let n_state = if full { 100 } else { 20 };
     for sys in pures.iter().chain(bins.iter()) {
         if let Some(o) = &only {
             if !sys.name.contains(o.as_str()) {
@@ -1247,16 +1279,14 @@ fn main() {
     // ---------------------------------------------------------------- F. dew point line (temperature stage, then pressure stage)
     let mut dew_lines = Vec::new();
     let mut panics: Vec<Value> = Vec::new();
-    let n_dew = if full { 6 } else { 2 };
+    let n_dew = if full { 8 } else { 3 };
     for (i, sys) in bins.iter().enumerate() {
         if let Some(o) = &only {
             if !sys.name.contains(o.as_str()) {
                 continue;
             }
         }
-        if !full && i >= 2 {
-            break;
-        }
+        let _ = i;
         for _ in 0..n_dew {
             let np = 8 + rng.below(if full { 60 } else { 24 });
             let y1 = rng.range(0.1, 0.9);
@@ -1287,7 +1317,8 @@ fn main() {
         "singles": singles.iter().map(|(n, k, c)| json!({"name": n, "kind": k.solver(), "call": call_json(c, 0)})).collect::<Vec<_>>(),
         "support": {
             "comparisons": st.comparisons, "both_converged": st.both_ok, "only_with_guess": st.guess_only_ok, "only_without_guess": st.none_only_ok,
-            "both_failed": st.both_fail, "worst_rel_diff_within_tol": st.worst, "failures": st.failures, "notes": st.notes, "samples": st.samples,
+            "both_failed": st.both_fail, "worst_rel_diff_within_tol": st.worst,
+            "by_kind": st.by_kind.iter().map(|(k, v)| json!({"what": k, "comparisons": v.0, "both_converged": v.1, "worst_rel_diff": v.2})).collect::<Vec<_>>(), "failures": st.failures, "notes": st.notes, "samples": st.samples,
             "missing_points": missing, "dropped_points_no_fallback_by_design": dropped, "grid_comparisons": grid_cmp,
             "tolerances": {"pure": TOL_PURE, "bubble_dew": TOL_BD, "tp_flash": TOL_FLASH, "state": TOL_STATE},
             "systems": {"pure": pures.iter().map(|s| s.name.clone()).collect::<Vec<_>>(), "binary": bins.iter().map(|s| s.name.clone()).collect::<Vec<_>>()},
